@@ -462,31 +462,37 @@ fn gen_items(c: &mut Choices, no_key: bool) -> (Vec<Item>, usize) {
     });
     next_sn[w] += 1;
   }
-  // sometimes a long run of one kind of bad change (budgets, counters and buffers in the
-  // skipping code have thresholds at powers of two)
-  if c.chance(50) {
-    let kind = [Kind::UnknownHash, Kind::UnknownHash, Kind::Truncated, Kind::WrongType, Kind::UnknownRep, Kind::Empty, Kind::BadDisposeKey][c.pick(7)];
-    let len = [17usize, 18, 33, 40, 65, 100, 129, 257][c.pick(8)];
-    let pos = c.pick(items.len() + 1);
-    let w = c.pick(nwriters);
-    let run: Vec<Item> = (0..len)
-      .map(|k| Item {
-        w,
-        sn: 0,
-        kind,
-        id: if kind == Kind::UnknownHash { 900 + (k % 3) as u32 } else { (k % 3) as u32 },
-        v: k as u16,
-      })
-      .collect();
-    items.splice(pos..pos, run);
-    // renumber per writer in queue order
-    let mut next = vec![1i64; nwriters];
-    for it in items.iter_mut() {
-      it.sn = next[it.w];
-      next[it.w] += 1;
-    }
-  }
   (items, nwriters)
+}
+
+/// Sometimes a long run of one kind of bad change is spliced in (budgets, counters and buffers
+/// in the skipping code have thresholds at powers of two). Drawn after every other choice of
+/// the case, so that older replay files decode as before. Returns the inserted range.
+fn insert_long_run(c: &mut Choices, items: &mut Vec<Item>, nwriters: usize) -> Option<std::ops::Range<usize>> {
+  if !c.chance(50) {
+    return None;
+  }
+  let kind = [Kind::UnknownHash, Kind::UnknownHash, Kind::Truncated, Kind::WrongType, Kind::UnknownRep, Kind::Empty, Kind::BadDisposeKey][c.pick(7)];
+  let len = [17usize, 18, 33, 40, 65, 100, 129, 257][c.pick(8)];
+  let pos = c.pick(items.len() + 1);
+  let w = c.pick(nwriters);
+  let run: Vec<Item> = (0..len)
+    .map(|k| Item {
+      w,
+      sn: 0,
+      kind,
+      id: if kind == Kind::UnknownHash { 900 + (k % 3) as u32 } else { (k % 3) as u32 },
+      v: k as u16,
+    })
+    .collect();
+  items.splice(pos..pos, run);
+  // renumber per writer in queue order
+  let mut next = vec![1i64; nwriters];
+  for it in items.iter_mut() {
+    it.sn = next[it.w];
+    next[it.w] += 1;
+  }
+  Some(pos..pos + len)
 }
 
 /// is the key hash of this dispose known at the time it is ingested? (a value or
@@ -514,7 +520,9 @@ fn scenario_cache(c: &mut Choices, o: &mut Outcome) {
   let form = FORMS[c.pick(FORMS.len())];
   let reliable = c.bool();
   let no_key = form.no_key();
-  let (items, nwriters) = gen_items(c, no_key);
+  let (mut items, nwriters) = gen_items(c, no_key);
+  let _ = insert_long_run(c, &mut items, nwriters);
+  let items = items;
   let qos = reader_qos(reliable);
   let mut node = Node::new(0);
   let ri = node.add_reader(rig::user_reader_eid(1, !no_key), if no_key { "rig_topic_nokey" } else { "rig_topic_c09" }, &qos);
@@ -824,6 +832,16 @@ fn scenario_wire(c: &mut Choices, o: &mut Outcome) {
       _ => Wire::BothFlags,
     })
     .collect();
+  // a long run (drawn last); its members go over the wire as they are
+  let mut wires = wires;
+  if let Some(r) = insert_long_run(c, &mut items, 1) {
+    wires.splice(r.start..r.start, std::iter::repeat(Wire::Item).take(r.len()));
+    for (i, it) in items.iter_mut().enumerate() {
+      it.w = 0;
+      it.sn = i as i64 + 1;
+    }
+  }
+  let wires = wires;
   let qos = reader_qos(true);
   let mut node = Node::new(0);
   let ri = node.add_reader(rig::user_reader_eid(1, true), "rig_topic_c09", &qos);
